@@ -12,6 +12,7 @@
 package main
 
 import (
+	"context"
 	"errors"
 	"fmt"
 	"math"
@@ -23,6 +24,7 @@ import (
 	cstate "0chain.net/chaincore/chain/state"
 	"0chain.net/chaincore/transaction"
 	"0chain.net/core/config"
+	"0chain.net/core/encryption"
 	"0chain.net/smartcontract/minersc"
 	"0chain.net/smartcontract/stakepool"
 	"github.com/0chain/common/core/statecache"
@@ -137,11 +139,19 @@ func c43() {
 
 	msc := &minersc.MinerSmartContract{}
 	gn := &minersc.GlobalNode{OwnerId: "owner"}
+	var incomplete c43IncompleteStats
 
 	for _, h := range hists {
 		for _, via := range []string{"insert", "contract"} {
 			w := newC43World()
 			rctx := c43Ctx(w.mpt, 7)
+			// unrelated records, so that the trie has inner nodes on the way to the fork records
+			for i := 0; i < c43Fillers; i++ {
+				f := cstate.NewHardFork(fmt.Sprintf("filler-%d", i), 9)
+				if _, err := rctx.InsertTrieNode(f.GetKey(), f); err != nil {
+					ev.Fatal("insert filler: %v", err)
+				}
+			}
 			for _, rec := range h.recs {
 				switch via {
 				case "insert":
@@ -274,12 +284,21 @@ func c43() {
 					}
 				}
 			}
+			c43Incomplete(run, w, h.recs, via, recorded, names, &incomplete)
 			run.Add(1, 0, 0)
 			if len(h.recs) == 2 {
 				run.Sample(map[string]any{"history": h.recs, "record_via": via})
 			}
 		}
 	}
+	run.Extra["incomplete_state.node_deletions"] = incomplete.deletions
+	run.Extra["incomplete_state.lookups_through_a_missing_node"] = incomplete.unreadable
+	run.Extra["incomplete_state.lookups_not_touching_the_missing_node"] = incomplete.readable
+	run.Extra["incomplete_state.node_kinds_deleted"] = incomplete.kinds
+	if incomplete.unreadable == 0 || incomplete.readable == 0 {
+		ev.Fatal("incomplete-state dimension is vacuous: %+v", incomplete)
+	}
+	run.Bounds["incomplete_state"] = fmt.Sprintf("for every history and way of recording: every node of the trie (root, inner, leaf; %d unrelated filler records give the trie inner nodes) deleted from the node DB one at a time, then every fork name x {trie reopened on the same node DB, child trie level} (cold node cache) x block rounds 0, r-1, r, r+1", c43Fillers)
 	// observation (recorded, not judged): the sentinel collision at block round 2^63-1
 	{
 		w := newC43World()
@@ -307,4 +326,109 @@ func indexOf(xs []string, x string) int {
 		}
 	}
 	return -1
+}
+
+const c43Fillers = 20
+
+type c43IncompleteStats struct {
+	deletions, unreadable, readable int
+	kinds                           map[string]int
+}
+
+// c43Incomplete is the "incomplete local state" dimension: each node of the trie is removed from
+// the node DB in turn (partial state during sync, pruned node). A lookup of hardfork:<name> walks
+// through exactly the nodes whose position is a prefix of the record's path; when one of them is
+// missing the state is unreadable and NEITHER branch may run: the caller must get an error that
+// is util.ErrNodeNotFound (it triggers a state sync on it). Lookups that do not touch the missing
+// node behave as on complete state.
+func c43Incomplete(run *ev.Run, w *c43World, recs []c43Rec, via string, recorded map[string]int64, names []string, st *c43IncompleteStats) {
+	if st.kinds == nil {
+		st.kinds = map[string]int{}
+	}
+	type tn struct {
+		prefix string
+		key    util.Key
+		kind   string
+	}
+	var nodes []tn
+	err := w.mpt.Iterate(context.Background(), func(ctx context.Context, path util.Path, key util.Key, node util.Node) error {
+		kind := fmt.Sprintf("%T", node)
+		nodes = append(nodes, tn{string(path), append(util.Key{}, key...), strings.TrimPrefix(kind, "*util.")})
+		return nil
+	}, util.NodeTypeLeafNode|util.NodeTypeFullNode|util.NodeTypeExtensionNode)
+	if err != nil {
+		ev.Fatal("iterate: %v", err)
+	}
+	db := w.mpt.GetNodeDB()
+	for _, nd := range nodes {
+		saved, err := db.GetNode(nd.key)
+		if err != nil {
+			ev.Fatal("node %x listed by Iterate is not in the node DB: %v", nd.key, err)
+		}
+		if err := db.DeleteNode(nd.key); err != nil {
+			ev.Fatal("delete node: %v", err)
+		}
+		st.deletions++
+		st.kinds[nd.kind]++
+		for _, name := range names {
+			target := string(util.Path(encryption.Hash(cstate.NewHardFork(name, 0).GetKey())))
+			unreadable := strings.HasPrefix(target, nd.prefix)
+			r, isRec := recorded[name]
+			brs := map[int64]bool{0: true}
+			if isRec {
+				for d := int64(-1); d <= 1; d++ {
+					if v := r + d; v >= 0 && (d <= 0 || r < math.MaxInt64) {
+						brs[v] = true
+					}
+				}
+			} else {
+				brs[5] = true
+			}
+			for br := range brs {
+				for _, readVia := range []string{"reopened", "child"} {
+					var ctx *cstate.StateContext
+					if readVia == "reopened" {
+						// a fresh trie object on the same node DB and root (the recording trie object keeps the
+						// nodes it wrote in its in-memory node cache, which would hide the missing node)
+						ctx = c43Ctx(util.NewMerklePatriciaTrie(db, 1, w.mpt.GetRoot(), statecache.NewEmpty()), br)
+					} else {
+						ctx = c43Ctx(w.child(), br)
+					}
+					desc := fmt.Sprintf("history %v via %s, %s node at trie position %q missing from the node DB, read via %s, fork %q, block round %d", recs, via, nd.kind, nd.prefix, readVia, name, br)
+					replay := map[string]any{"history": recs, "record_via": via, "missing_node_position": nd.prefix, "missing_node_kind": nd.kind, "read_via": readVia, "fork": name, "block_round": br}
+					nb, na := 0, 0
+					werr := cstate.WithActivation(ctx, name, func() error { nb++; return nil }, func() error { na++; return nil })
+					gr, gerr := cstate.GetRoundByName(ctx, name)
+					run.Add(0, 1, 2)
+					run.Outcome(fmt.Sprintf("incomplete|%v|%s|%s|%s|%s|%d|b%d a%d %v", recs, via, nd.prefix, readVia, name, br, nb, na, werr))
+					if unreadable {
+						st.unreadable++
+						switch {
+						case nb > 0:
+							run.Violation("C43:WithActivation:unreadable-state:pre-fork-rules-used", desc+fmt.Sprintf(": the pre-fork branch ran (returned %v)", werr), replay)
+						case na > 0:
+							run.Violation("C43:WithActivation:unreadable-state:post-fork-rules-used", desc+fmt.Sprintf(": the post-fork branch ran (returned %v)", werr), replay)
+						case !errors.Is(werr, util.ErrNodeNotFound):
+							run.Violation("C43:WithActivation:unreadable-state:error-is-not-node-not-found", desc+fmt.Sprintf(": returned %v", werr), replay)
+						}
+						if gerr == nil || !errors.Is(gerr, util.ErrNodeNotFound) {
+							run.Violation("C43:GetRoundByName:unreadable-state:error-is-not-node-not-found", desc+fmt.Sprintf(": GetRoundByName=%d, %v", gr, gerr), replay)
+						}
+						continue
+					}
+					st.readable++
+					wantAfter := isRec && br >= r
+					if nb+na != 1 || (na == 1) != wantAfter || werr != nil {
+						run.Violation("C43:WithActivation:unrelated-node-missing:wrong-branch", desc+fmt.Sprintf(": before ran %d, after ran %d, returned %v; the record's path does not touch the missing node", nb, na, werr), replay)
+					}
+					if isRec && (gerr != nil || gr != r) || !isRec && gerr == nil {
+						run.Violation("C43:GetRoundByName:unrelated-node-missing:wrong-answer", desc+fmt.Sprintf(": GetRoundByName=%d, %v", gr, gerr), replay)
+					}
+				}
+			}
+		}
+		if err := db.PutNode(nd.key, saved); err != nil {
+			ev.Fatal("restore node: %v", err)
+		}
+	}
 }
